@@ -8,6 +8,16 @@
 // one-path `NlriChange` with an empty export map and a collecting sink; `(rx …)` runs the loop
 // tests in front of the RIB exactly as `run_select` chains them (`is_as_loop` ⇒ skip, else
 // `rx_update`) on a `PeerSession` without a socket and reports whether the prefix got installed.
+// `(exp2 …)`: the path is inserted into a REAL `table::Table`, the change it emits is processed, then
+// `Table::restale_llgr` marks the source and every change IT emits is processed on the same export map.
+// `(wire …)`: a REAL `Global` with two neighbours added by `add_peer`; both sessions are built by
+// `accept_connection` on loopback TCP connections (role, cluster-id, local AS, confederation id are
+// whatever the real code derives), brought to Established by a scripted remote speaker, and driven by
+// the REAL `run_select` (socket read -> try_parse -> validate_message -> AS-loop guard -> rx_msg ->
+// rx_update; peer event -> handle_prefix_update / on_established dump -> flush_tx); the announcing
+// neighbour sends one UPDATE, and what comes out of the receiver's socket is read back with the
+// independent UPDATE reader of export_common.rs.  Transcribed: the preamble of session_loop (take the
+// stream, feed `Connected`, apply the outputs) and the pump (run_select under a short idle timeout).
 #![allow(dead_code)]
 
 use super::super::export::{self, ExportMap, NlriSink, PeerExportContext};
@@ -107,6 +117,520 @@ fn run_exp(args: &[Term]) -> Option<String> {
     })
 }
 
+fn calls_t(calls: &[Term], second: bool) -> Term {
+    match calls.len() {
+        0 => Term::atom(if second { "nothing" } else { "suppressed" }),
+        1 if calls[0].head() == Some("reach") => calls[0].clone(),
+        1 if second && calls[0].head() == Some("unreach") => Term::atom("withdrawn"),
+        _ => Term::atom("other"),
+    }
+}
+
+fn run_exp2(args: &[Term]) -> Option<String> {
+    let [ctx, sess, pol, src, path] = args else {
+        return None;
+    };
+    let ctx = ctx_of(ctx)?;
+    let [raddr, cluster, mx, fam] = sess.tagged("sess")? else {
+        return None;
+    };
+    let remote_addr = addr_of(raddr)?;
+    let cluster_id = opt32(cluster)?.map(Ipv4Addr::from);
+    let mx = nat_small(mx)?;
+    if mx == 0 || mx > 8 {
+        return None;
+    }
+    let family = family_of(fam)?;
+    let policy = policy_of(pol)?;
+    let source = source_of(src)?;
+    if source.is_local() || source.is_kernel() || source.is_llgr_stale() {
+        return None;
+    }
+    let [pid, nh, attrs] = path.tagged("path")? else {
+        return None;
+    };
+    if nat32(pid)? != 1 {
+        return None;
+    }
+    let net = packet::Nlri::V4(packet::bgp::Ipv4Net {
+        addr: Ipv4Addr::new(10, 9, 0, 0),
+        mask: 24,
+    });
+    let mut tbl = table::Table::new(0);
+    let first = tbl.insert(
+        source.clone(),
+        family,
+        net,
+        0,
+        nh_opt_of(nh)?,
+        Arc::new(attrs_of(attrs)?),
+        None,
+        false,
+        false,
+        None,
+        0,
+    );
+    let table::InsertResult::Changed(change) = first else {
+        return Some("(harness-no-change)".into());
+    };
+    let mut export_map = if mx > 1 {
+        ExportMap::new([family])
+    } else {
+        ExportMap::default()
+    };
+    let mut sink = CollectSink::default();
+    let mut feed = |change: &table::NlriChange, export_map: &mut ExportMap, sink: &mut CollectSink| {
+        export::process_nlri_change(
+            change,
+            mx as usize,
+            remote_addr,
+            export_map,
+            sink,
+            &ctx,
+            policy.as_deref(),
+            cluster_id,
+            None,
+            None,
+            None,
+        );
+    };
+    feed(&change, &mut export_map, &mut sink);
+    let o1 = calls_t(&sink.calls, false);
+    sink.calls.clear();
+    for ch in tbl.restale_llgr(source.remote_addr, family) {
+        feed(&ch, &mut export_map, &mut sink);
+    }
+    let o2 = calls_t(&sink.calls, true);
+    Some(Term::tag("twice", vec![o1, o2]).to_string())
+}
+
+// ---------------------------------------------------------------- wire cases
+
+struct Nbr {
+    addr: Ipv4Addr,
+    rasn: u32,
+    lasn: u32,
+    rid: u32,
+    rs: bool,
+    rrc: bool,
+    cluster: Option<u32>,
+}
+
+fn nbr_of(t: &Term) -> Option<Nbr> {
+    let [a, rasn, lasn, rid, rs, rrc, cl] = t.tagged("nbr")? else {
+        return None;
+    };
+    let IpAddr::V4(addr) = addr_of(a)? else {
+        return None;
+    };
+    if addr.octets()[0] != 127 {
+        return None;
+    }
+    Some(Nbr {
+        addr,
+        rasn: nat32(rasn)?,
+        lasn: nat32(lasn)?,
+        rid: nat32(rid)?,
+        rs: rs.as_bool()?,
+        rrc: rrc.as_bool()?,
+        cluster: opt32(cl)?,
+    })
+}
+
+fn nbr_params(n: &Nbr) -> PeerParams {
+    PeerParams {
+        remote_addr: IpAddr::V4(n.addr),
+        remote_port: Global::BGP_PORT,
+        expected_remote_asn: n.rasn,
+        local_asn: n.lasn,
+        passive: true,
+        rs_client: n.rs,
+        route_reflector: RouteReflectorConfig {
+            route_reflector_client: n.rrc,
+            route_reflector_cluster_id: n.cluster.map(Ipv4Addr::from),
+        },
+        delete_on_disconnected: false,
+        admin_down: false,
+        state: SessionState::Active,
+        holdtime: 90,
+        connect_retry_time: 3,
+        multihop_ttl: None,
+        ttl_security: None,
+        password: None,
+        families: [(Family::IPV4, 0u8)].into_iter().collect(),
+        send_max: FnvHashMap::default(),
+        prefix_limits: FnvHashMap::default(),
+        graceful_restart: None,
+        llgr: None,
+        bfd_config: None,
+        neighbor_interface: None,
+        bind_interface: None,
+        export_policy: None,
+    }
+}
+
+struct WConn {
+    sess: PeerSession,
+    stream: TcpStream,
+    client: TcpStream,
+    rxbuf: bytes::BytesMut,
+    close_rx: CloseRxFuture,
+    local: SocketAddr,
+    remote: SocketAddr,
+    dead: bool,
+}
+
+const W_IDLE: Duration = Duration::from_millis(2);
+
+fn wframe(ty: u8, body: &[u8]) -> Vec<u8> {
+    let mut f = vec![0xffu8; 16];
+    f.extend_from_slice(&((19 + body.len()) as u16).to_be_bytes());
+    f.push(ty);
+    f.extend_from_slice(body);
+    f
+}
+
+fn wopen(asn: u32, rid: u32) -> Vec<u8> {
+    let as2: u16 = if asn > 65535 { 23456 } else { asn as u16 };
+    let mut caps: Vec<u8> = vec![1, 4, 0, 1, 0, 1, 65, 4];
+    caps.extend_from_slice(&asn.to_be_bytes());
+    let mut body: Vec<u8> = vec![4];
+    body.extend_from_slice(&as2.to_be_bytes());
+    body.extend_from_slice(&90u16.to_be_bytes());
+    body.extend_from_slice(&rid.to_be_bytes());
+    body.push((caps.len() + 2) as u8);
+    body.push(2);
+    body.push(caps.len() as u8);
+    body.extend_from_slice(&caps);
+    wframe(1, &body)
+}
+
+/// wire form of one attribute term (the remote speaker's own encoder; 4-octet AS numbers)
+fn wattr(t: &Term, out: &mut Vec<(u8, Vec<u8>)>) -> Option<()> {
+    let mut put = |flags: u8, code: u8, v: Vec<u8>| {
+        let mut a = Vec::new();
+        if v.len() > 255 {
+            a.extend_from_slice(&[flags | 0x10, code]);
+            a.extend_from_slice(&(v.len() as u16).to_be_bytes());
+        } else {
+            a.extend_from_slice(&[flags, code, v.len() as u8]);
+        }
+        a.extend_from_slice(&v);
+        out.push((code, a));
+    };
+    let l = t.as_list()?;
+    match l.first()?.as_atom()? {
+        "val" => {
+            let [_, c, v] = l else { return None };
+            let c = nat_small(c)? as u8;
+            let v = nat32(v)?;
+            let body = if c == 1 { vec![v as u8] } else { v.to_be_bytes().to_vec() };
+            put(canon_flags(c)?, c, body);
+        }
+        "aspath" => {
+            let mut body = Vec::new();
+            for seg in &l[1..] {
+                let seg = seg.as_list()?;
+                body.push(nat_small(seg.first()?)? as u8);
+                body.push((seg.len() - 1) as u8);
+                for a in &seg[1..] {
+                    body.extend_from_slice(&nat32(a)?.to_be_bytes());
+                }
+            }
+            put(0x40, 2, body);
+        }
+        "words" => {
+            let c = nat_small(l.get(1)?)? as u8;
+            let mut body = Vec::new();
+            for w in &l[2..] {
+                body.extend_from_slice(&nat32(w)?.to_be_bytes());
+            }
+            put(canon_flags(c)?, c, body);
+        }
+        "bin" => {
+            let [_, c, b] = l else { return None };
+            let c = nat_small(c)? as u8;
+            put(canon_flags(c)?, c, b.as_bytes()?);
+        }
+        "opq" => {
+            let [_, c, f, b] = l else { return None };
+            put(nat_small(f)? as u8 & !0x10, nat_small(c)? as u8, b.as_bytes()?);
+        }
+        _ => return None,
+    }
+    Some(())
+}
+
+fn wupdate(attrs: &Term, nh: Ipv4Addr) -> Option<Vec<u8>> {
+    let mut parts: Vec<(u8, Vec<u8>)> = Vec::new();
+    for a in attrs.tagged("attrs")? {
+        wattr(a, &mut parts)?;
+    }
+    let mut n = vec![0x40, 3, 4];
+    n.extend_from_slice(&nh.octets());
+    parts.push((3, n));
+    parts.sort_by_key(|x| x.0); // stable
+    let at: Vec<u8> = parts.into_iter().flat_map(|x| x.1).collect();
+    let mut b: Vec<u8> = vec![0, 0];
+    b.extend_from_slice(&(at.len() as u16).to_be_bytes());
+    b.extend_from_slice(&at);
+    b.extend_from_slice(&[24, 10, 9, 0]);
+    Some(wframe(2, &b))
+}
+
+async fn wconnect(
+    global: &GlobalHandle,
+    tables: &TableHandle,
+    listener: &tokio::net::TcpListener,
+    from: Ipv4Addr,
+) -> Option<WConn> {
+    let laddr = listener.local_addr().ok()?;
+    let sock = tokio::net::TcpSocket::new_v4().ok()?;
+    sock.bind(SocketAddr::new(IpAddr::V4(from), 0)).ok()?;
+    let (client, server) = tokio::join!(sock.connect(laddr), listener.accept());
+    let (client, server) = (client.ok()?, server.ok()?.0);
+    let mut sess = accept_connection(global, tables, server, crate::fsm::Role::Passive).await?;
+    // --- session_loop preamble (transcribed) ---
+    let stream = sess.stream.take()?;
+    let remote = stream.peer_addr().ok()?;
+    let local = stream.local_addr().ok()?;
+    let outputs = sess
+        .conn_arbiter
+        .lock()
+        .unwrap()
+        .process(sess.role, crate::fsm::Input::Connected(sess.is_restarting));
+    let (_, effects) = sess.apply_outputs(outputs, local, remote).await;
+    sess.process_effects(effects, global).await;
+    let close_rx: CloseRxFuture = sess.close_rx.take().map(|rx| rx.fuse()).into();
+    // --- end of preamble ---
+    Some(WConn {
+        sess,
+        stream,
+        client,
+        rxbuf: bytes::BytesMut::with_capacity(PeerSession::RXBUF_SIZE),
+        close_rx,
+        local,
+        remote,
+        dead: false,
+    })
+}
+
+/// run every live session's `run_select` until all are idle
+async fn wpump(global: &GlobalHandle, conns: &mut [&mut WConn]) {
+    let mut budget = 300usize;
+    loop {
+        let mut progressed = false;
+        for c in conns.iter_mut() {
+            while !c.dead && budget > 0 {
+                let step = tokio::time::timeout(
+                    W_IDLE,
+                    c.sess.run_select(
+                        global,
+                        &mut c.stream,
+                        &mut c.rxbuf,
+                        c.remote,
+                        c.local,
+                        &mut c.close_rx,
+                    ),
+                )
+                .await;
+                match step {
+                    Err(_) => break,
+                    Ok(Step::Continue) => {
+                        budget -= 1;
+                        progressed = true;
+                    }
+                    Ok(Step::Terminate { .. }) => {
+                        c.dead = true;
+                        progressed = true;
+                    }
+                }
+            }
+        }
+        if !progressed || budget == 0 {
+            break;
+        }
+    }
+}
+
+async fn wwrite(c: &mut WConn, bytes: &[u8]) -> bool {
+    use tokio::io::AsyncWriteExt;
+    if c.client.write_all(bytes).await.is_err() {
+        return false;
+    }
+    let _ = tokio::time::timeout(Duration::from_secs(2), c.stream.readable()).await;
+    true
+}
+
+/// what the remote speaker has received so far, as a mirror
+async fn wdrain(c: &mut WConn, m: &mut Mirror) -> Result<(), &'static str> {
+    let mut buf: Vec<u8> = Vec::new();
+    let mut tmp = [0u8; 8192];
+    loop {
+        match c.client.try_read(&mut tmp) {
+            Ok(0) => break,
+            Ok(n) => buf.extend_from_slice(&tmp[..n]),
+            Err(_) => break,
+        }
+    }
+    apply_bytes(&buf, false, m).map(|_| ())
+}
+
+fn wobs(m: &Mirror) -> Term {
+    let key: Key = (u32::from(Ipv4Addr::new(10, 9, 0, 0)) as u128, 24, 0);
+    match m.get(&key) {
+        Some((nh, at)) => Term::tag("reach", vec![Term::nat(0u32), nh.clone(), at.clone()]),
+        None => Term::atom("suppressed"),
+    }
+}
+
+async fn run_wire_async(args: &[Term]) -> Option<String> {
+    let [glob, src, dst, first, nh, attrs] = args else {
+        return None;
+    };
+    let [asn, rid, confed, laddr] = glob.tagged("glob")? else {
+        return None;
+    };
+    if addr_of(laddr)? != IpAddr::V4(Ipv4Addr::new(127, 0, 0, 1)) {
+        return None;
+    }
+    let src = nbr_of(src)?;
+    let dst = if dst.as_atom() == Some("none") {
+        None
+    } else {
+        Some(nbr_of(dst)?)
+    };
+    // AS numbers and BGP identifiers a session can be opened with
+    let (gasn, grid) = (nat32(asn)?, nat32(rid)?);
+    let ok_nbr = |n: &Nbr| n.rasn != 0 && n.rid != 0 && n.rid != grid;
+    if gasn == 0 || grid == 0 || !ok_nbr(&src) || dst.as_ref().is_some_and(|d| !ok_nbr(d)) {
+        return None;
+    }
+    let first = first.as_bool()?;
+    let Some(bgp::Nexthop::V4(nh)) = nh_opt_of(nh)? else {
+        return None;
+    };
+    // same acceptance as for the other case kinds (the reference codec's well-formedness)
+    attrs_of(attrs)?;
+    let update = wupdate(attrs, nh)?;
+    let loop1 = Ipv4Addr::new(127, 0, 0, 1);
+    if src.addr == loop1 || dst.as_ref().is_some_and(|d| d.addr == loop1 || d.addr == src.addr) {
+        return None;
+    }
+    // the router
+    let (tx, _rx) = mpsc::unbounded_channel();
+    let (bfd_tx, _bfd_rx) = mpsc::unbounded_channel();
+    let mut g = Global::new(tx, bfd_tx);
+    g.asn = nat32(asn)?;
+    g.router_id = Ipv4Addr::from(nat32(rid)?);
+    if confed.as_atom() != Some("none") {
+        let l = confed.tagged("confed")?;
+        let mut members = FnvHashSet::default();
+        for m in &l[1..] {
+            members.insert(nat32(m)?);
+        }
+        let id = nat32(l.first()?)?;
+        if id == 0 {
+            return None;
+        }
+        g.confederation = Some(ConfederationConfig { id, members });
+    }
+    if g.add_peer(nbr_params(&src), None).is_err() {
+        return Some("(harness-add-peer)".into());
+    }
+    if let Some(d) = &dst
+        && g.add_peer(nbr_params(d), None).is_err()
+    {
+        return Some("(harness-add-peer)".into());
+    }
+    let global: GlobalHandle = Arc::new(tokio::sync::RwLock::new(g));
+    let tables: TableHandle = Arc::new(TableManager::new(1));
+    let listener = tokio::net::TcpListener::bind("127.0.0.1:0").await.ok()?;
+
+    async fn establish(
+        global: &GlobalHandle,
+        tables: &TableHandle,
+        listener: &tokio::net::TcpListener,
+        n: &Nbr,
+    ) -> Option<WConn> {
+        let mut c = wconnect(global, tables, listener, n.addr).await?;
+        let mut hello = wopen(n.rasn, n.rid);
+        hello.extend_from_slice(&wframe(4, &[]));
+        if !wwrite(&mut c, &hello).await {
+            return None;
+        }
+        wpump(global, &mut [&mut c]).await;
+        if c.dead || c.sess.state.fsm.load(Ordering::Relaxed) != SessionState::Established as u8 {
+            return None;
+        }
+        Some(c)
+    }
+
+    let Some(mut cs) = establish(&global, &tables, &listener, &src).await else {
+        return Some("(harness-not-established src)".into());
+    };
+    let mut cd: Option<WConn> = None;
+    if let (Some(d), true) = (&dst, first) {
+        match establish(&global, &tables, &listener, d).await {
+            Some(c) => cd = Some(c),
+            None => return Some("(harness-not-established dst)".into()),
+        }
+    }
+    // the announcement
+    if !wwrite(&mut cs, &update).await {
+        return Some("(harness-write)".into());
+    }
+    match cd.as_mut() {
+        Some(c) => wpump(&global, &mut [&mut cs, c]).await,
+        None => wpump(&global, &mut [&mut cs]).await,
+    }
+    if let (Some(d), false) = (&dst, first) {
+        match establish(&global, &tables, &listener, d).await {
+            Some(c) => cd = Some(c),
+            None => return Some("(harness-not-established dst)".into()),
+        }
+        wpump(&global, &mut [&mut cs, cd.as_mut().unwrap()]).await;
+    }
+    if cs.dead || cd.as_ref().is_some_and(|c| c.dead) {
+        return Some("(session-terminated)".into());
+    }
+    // observations
+    let installed = {
+        let mut found = Term::atom("absent");
+        for ch in tables.collect_loc_rib_paths(Family::IPV4) {
+            if let Some(p) = ch.current_paths.first() {
+                found = Term::tag("installed", vec![attrs_t(&p.attr)]);
+            }
+        }
+        found
+    };
+    let mut mb = Mirror::new();
+    if wdrain(&mut cs, &mut mb).await.is_err() {
+        return Some("(harness-bad-bytes back)".into());
+    }
+    let mut ms = Mirror::new();
+    if let Some(c) = cd.as_mut()
+        && wdrain(c, &mut ms).await.is_err()
+    {
+        return Some("(harness-bad-bytes sent)".into());
+    }
+    Some(
+        Term::tag(
+            "wire",
+            vec![
+                installed,
+                Term::tag("back", vec![wobs(&mb)]),
+                Term::tag("sent", vec![wobs(&ms)]),
+            ],
+        )
+        .to_string(),
+    )
+}
+
+fn run_wire(rt: &tokio::runtime::Runtime, args: &[Term]) -> Option<String> {
+    rt.block_on(run_wire_async(args))
+}
+
 fn run_rx(rt: &tokio::runtime::Runtime, args: &[Term]) -> Option<String> {
     let [lasn, confed, rid, cluster, role, attrs] = args else {
         return None;
@@ -166,6 +690,10 @@ fn run_case(rt: &tokio::runtime::Runtime, line: &str) -> String {
     };
     let r = if let Some(args) = t.tagged("exp") {
         run_exp(args)
+    } else if let Some(args) = t.tagged("exp2") {
+        run_exp2(args)
+    } else if let Some(args) = t.tagged("wire") {
+        run_wire(rt, args)
     } else if let Some(args) = t.tagged("rx") {
         run_rx(rt, args)
     } else {
